@@ -107,6 +107,19 @@ class Hang(BaseException):
     pass
 
 
+_FAIL_SEEN = {}
+
+
+def fail(R, what, case, observed, expected, cls):
+    """R.fail, at most 5 times per class (framework keeps 200 failures in all: a frequent known class
+    must not crowd out a new one); every occurrence is counted in the histogram"""
+    R.count("oracle_failures_by_class", cls)
+    k = _FAIL_SEEN.get((id(R), cls), 0)
+    _FAIL_SEEN[(id(R), cls)] = k + 1
+    if k < 5:
+        R.fail(what, case, observed, expected, cls)
+
+
 def _alarm(sig, frm):
     raise Hang()
 
@@ -548,28 +561,28 @@ def check_call(R, ctx, op, args, invalid, injected=None, where=""):
 
     # ---- oracle
     if impl[0] == "hang":
-        R.fail("call does not return", case, "no return within 20 s", "a result", f"{op}:hang")
+        fail(R, "call does not return", case, "no return within 20 s", "a result", f"{op}:hang")
         return None
     if impl[0] == "exc":
         cls = classify_exception(drv, op, args, impl[3], injected)
         R.count("exceptions", cls)
-        R.fail("exception escapes " + op + "()", case, impl[2], "a falsy Tag with an error for the request that cannot succeed", cls)
+        fail(R, "exception escapes " + op + "()", case, impl[2], "a falsy Tag with an error for the request that cannot succeed", cls)
         return None
     res = as_list(impl[1], n)
     if res is None or len(res) != n:
-        R.fail("result shape", case, repr(impl[1])[:300], f"{'a single Tag' if n == 1 else f'a list of {n} Tags'}", f"{op}:shape")
+        fail(R, "result shape", case, repr(impl[1])[:300], f"{'a single Tag' if n == 1 else f'a list of {n} Tags'}", f"{op}:shape")
         return None
     for k, (a, t) in enumerate(zip(args, res)):
         req = a if op == "read" else a[0]
         if bool(t) != (t.value is not None and t.error is None):
-            R.fail("Tag truthiness", case, repr(t), "truthy iff value is not None and error is None", f"{op}:truthy")
+            fail(R, "Tag truthiness", case, repr(t), "truthy iff value is not None and error is None", f"{op}:truthy")
         names_ok = [req] + ([strip_count(req)] if isinstance(req, str) else [])
         if t.tag not in names_ok or (bool(t) and t.tag != names_ok[-1]):
-            R.fail("result name", {**case, "k": k}, repr(t), f"tag name {names_ok!r} (without {{n}} when truthy)", f"{op}:name")
+            fail(R, "result name", {**case, "k": k}, repr(t), f"tag name {names_ok!r} (without {{n}} when truthy)", f"{op}:name")
         if k in invalid:
             R.count("invalid_classes", invalid[k])
             if bool(t) or not isinstance(t.error, str) or t.error == "":
-                R.fail("invalid request not reported", {**case, "k": k, "class": invalid[k]}, repr(t),
+                fail(R, "invalid request not reported", {**case, "k": k, "class": invalid[k]}, repr(t),
                        "a falsy Tag with a non-empty error", f"{op}:invalid:{invalid[k]}")
     return res
 
@@ -596,7 +609,7 @@ def check_isolation(R, ctx, op, args, res, injected_hit=()):
                 continue
             if alone[0] == "raised-or-list":
                 continue                                  # the request alone raises: reported by its own call
-            R.fail("isolation", {"scenario": ctx["id"], "op": op, "args": [encode_arg(x) for x in args], "k": k,
+            fail(R, "isolation", {"scenario": ctx["id"], "op": op, "args": [encode_arg(x) for x in args], "k": k,
                                  "micro800": bool(drv._micro800), "conn": drv.connection_size},
                    outcome(t), alone, f"{op}:isolation")
 
@@ -821,7 +834,7 @@ def injected_calls(R, rng, ctx, op, n_calls, gen):
         if res is not None:
             check_isolation(R, ctx, op, args, res, injected_hit=set(range(n)))
             if not any(not t for t in res):
-                R.fail("injected error status not reported", {"scenario": ctx["id"], "op": op, "args": [encode_arg(a) for a in args], "inject": list(inj)},
+                fail(R, "injected error status not reported", {"scenario": ctx["id"], "op": op, "args": [encode_arg(a) for a in args], "inject": list(inj)},
                        [repr(t) for t in res], "at least one falsy Tag", f"{op}:inject")
     return True
 
@@ -890,20 +903,20 @@ def run(R, escalate=False):
     import scenarios as S
     import logging
     logging.disable(logging.CRITICAL)
-    thorough = R.tier == "thorough" or escalate
     R.rule = ("read()/write() of the real LogixDriver against the live reference target: no exception, one Tag per request in order "
               "with its name, falsy + non-empty error for requests that cannot succeed, outcome equal to the request issued alone; "
               "model parse_tag_request == _parse_tag_request and model run_read/run_write == read/write on the recorded replies")
     run_corpus(R)
-    n_scen, n_calls, parse_n = (400, 12, 60) if thorough else (40, 7, 40)
+    n_scen, n_calls, parse_n = (400, 12, 60) if R.tier == "thorough" else ((120, 8, 40) if escalate else (40, 7, 40))
     try:
         changed = sorted(k for k, v in source_hashes().items() if SOURCE_PINS.get(k) != v)
     except Exception as e:                                         # a modelled function is gone: search harder
         changed = [f"unreadable: {e!r}"]
     if changed:
-        R.notes.append("modelled functions changed since the models were reviewed (search enlarged 3x): " + ", ".join(changed))
+        R.notes.append("modelled functions changed since the models were reviewed (search enlarged): " + ", ".join(changed))
         R.count("source_changed", len(changed))
-        n_scen *= 3
+        if not escalate and R.tier != "thorough":
+            n_scen *= 3
     for k in range(n_scen):
         rng = random.Random(R.rng.randrange(1 << 30))
         seed = rng.randrange(1 << 30)
